@@ -19,10 +19,10 @@ import (
 	"verif/simnet"
 )
 
-var caps = []string{"", "dsack-below-window", "fin-during-trace", "rstack-during-trace", "timestamps", "timestamps-bsd-option-order", "bsd-option-order", "duplicate-synack", "slow-synack", "isn-near-wrap", "no-sack-permitted", "plain-acks", "plain-acks-with-timestamps", "empty-sack-option", "half-sack-block", "closed", "no-handshake", "syn-dropped", "greeting-before-synack", "greeting-without-synack", "ecn-setup-synack", "ecn-setup-synack-without-sack"}
+var caps = []string{"", "dsack-below-window", "fin-during-trace", "rstack-during-trace", "timestamps", "timestamps-bsd-option-order", "bsd-option-order", "duplicate-synack", "slow-synack", "isn-near-wrap", "no-sack-permitted", "plain-acks", "plain-acks-with-timestamps", "plain-acks-with-payload", "empty-sack-option", "half-sack-block", "closed", "no-handshake", "syn-dropped", "greeting-before-synack", "greeting-without-synack", "ecn-setup-synack", "ecn-setup-synack-without-sack"}
 
 func unavailable(c string) bool {
-	return c == "no-sack-permitted" || c == "plain-acks" || c == "plain-acks-with-timestamps" || c == "empty-sack-option" || c == "half-sack-block" || c == "closed" || c == "syn-dropped" || c == "ecn-setup-synack-without-sack"
+	return c == "no-sack-permitted" || c == "plain-acks" || c == "plain-acks-with-timestamps" || c == "plain-acks-with-payload" || c == "empty-sack-option" || c == "half-sack-block" || c == "closed" || c == "syn-dropped" || c == "ecn-setup-synack-without-sack"
 }
 
 func req(method, cap string, e2e int) proto.RTScn {
